@@ -153,6 +153,10 @@ def bin_vocab(facts):
                 # more than one payload-less variant (a new "already buffered" mode next to stdin): standard input
                 # is the one whose match arm reaches io::stdin()
                 unit = [u for u in unit if _arm_reaches(binc, p, u["idx"], "std::io::stdin")]
+            if len(vs) >= 2 and len(unit) == 0 and len(filev) == 1 and len(mapv) == 1:
+                # standard input is not an "opened" thing at all (`enum FileSource { File(File), Mmap(Mmap) }`, stdin
+                # handled on its own path): no stdin variant
+                opened.append((p, {"path": p, "short": p.rsplit("::", 1)[-1], "stdin": None, "stdin_idx": None, "file": filev[0]["name"], "file_idx": filev[0]["idx"], "mmap": mapv[0]["name"], "mmap_idx": mapv[0]["idx"]}))
             if len(vs) >= 3 and len(unit) == 1 and len(filev) == 1 and len(mapv) == 1:
                 opened.append((p, {"path": p, "short": p.rsplit("::", 1)[-1], "stdin": unit[0]["name"], "stdin_idx": unit[0]["idx"], "file": filev[0]["name"], "file_idx": filev[0]["idx"], "mmap": mapv[0]["name"], "mmap_idx": mapv[0]["idx"]}))
             if len(vs) == 2 and len(unit) == 1 and len(pathv) == 1:
